@@ -9,6 +9,9 @@
 (*   new_gaps              propositions of gaps of the new state that were not open before      *)
 (*   after_props           <<proved?, prop>> of every stated line of the new state               *)
 (*   query_other           queried parameter names that are not instantiation parameters         *)
+(*   recheck_before/after  (success only) the full check (every derived step expanded, gaps allowed) of the state   *)
+(*                         before the step and of the state it leaves: a step that "succeeds" on a checking state *)
+(*                         leaves a checking state (StepChecks): its closed subgoals are really proved              *)
 EXTENDS Naturals, Sequences, FiniteSets, TLC, TraceLib
 SetOf(s) == { s[i] : i \in 1..Len(s) }
 Proved(e) == { e.after_props[i][2] : i \in { i \in 1..Len(e.after_props) : e.after_props[i][1] } }
@@ -20,6 +23,7 @@ ClausesOf(e) ==
        \cup (IF e.outcome = "success" /\ e.has_goal /\ e.adv_goal = <<>> /\ e.new_gaps # <<>> THEN {"SolvesLeavesNone"} ELSE {})
        \cup (IF e.outcome = "success" /\ e.has_goal /\ ~(\A p \in SetOf(e.adv_goal) : p \in OpenAfter(e) \/ p \in Proved(e)) THEN {"ClosedOnesAreProved"} ELSE {})
        \cup (IF e.outcome = "success" /\ e.has_fact /\ ~(SetOf(e.adv_fact) \subseteq Proved(e)) THEN {"FactAppears"} ELSE {})
+       \cup (IF e.outcome = "success" /\ e.recheck_before /\ ~e.recheck_after THEN {"StepChecks"} ELSE {})
        \cup (IF ~e.orig_unchanged THEN {"CopyIsolated"} ELSE {})
 \* informational: a query for a parameter that the method does not declare (the property allows "further named parameters")
 \* also informational: search_method itself raised (no suggestion was returned, so the property does not speak about it)
